@@ -76,7 +76,10 @@ Definition verdict_c06_merge (c : m2case) : nat :=
   | Some ts =>
     if forallb is_td ts && Nat.ltb (m2k2 c) (td_top_size (m2impl c)) then 2
     else match shrink_top (m2k2 c) ts with
-         | Some t => if corrb t (m2impl c) then 0 else 1
+         | Some t => if corrb t (m2impl c) then 0
+                     (* the merge the model describes keeps every TypedDict within the limit in force, the real one does not *)
+                     else if td_boundedb (m2k2 c) t && negb (td_boundedb (m2k2 c) (m2impl c)) then 2
+                     else 1
          | None => 1
          end
   end.
